@@ -45,7 +45,7 @@ def _e2(prop):
     return f
 
 
-EXTRA = {"C18": _e2("C18"), "C16": _e2("C16"), "C06": _e2("C06"), "C03": _e2("C03"), "C02": _e2("C02"), "C01": _e2("C01")}
+EXTRA = {"C18": _e2("C18"), "C16": _e2("C16"), "C06": _e2("C06"), "C03": _e2("C03"), "C02": _e2("C02"), "C01": _e2("C01"), "C09": _e2("C09"), "C10": _e2("C10")}
 
 kanirun.META["C16"] = {
     "bounds": "E1: every constructor path for each concrete length 0,1,3 (quick) / 8 (thorough) with fully symbolic contents, 3 handles dropped in every order; from_utf8 for ALL byte strings of each length 0..4; Eq/Ord/Hash for pairs of lengths (1,2),(2,2) (quick) / (3,3) (thorough), symbolic hash seed; E2: 2 (quick) / 3 (thorough) threads each [clone; read; drop;] read; drop, symbolic capacity, all interleavings",
@@ -73,7 +73,7 @@ kanirun.META["C13"] = {
 }
 
 kanirun.META["C10"] = {
-    "bounds": "entry level: reloadable / opted-out / built-in Storable types x mutable in {true,false}, Arc and OnceInitCell wrappers; cache level (single shard, model capacity 1, thread-less reloader): what a failing load and get_or_insert send to the reloader; a get_or_insert value sits in a non-rewritable entry",
+    "bounds": "entry level: reloadable / opted-out / built-in Storable types x mutable in {true,false}, Arc and OnceInitCell wrappers; cache level (single shard, model capacity 1, thread-less reloader): what a failing load and get_or_insert send to the reloader; a get_or_insert value sits in a non-rewritable entry; E2 (MIR -> SMT): control flow of AnyCache::reload_untyped with every callee outcome symbolic (entry found or not, hot-reloaded or not, reloader present or not, load Ok or Err)",
     "outside": "histories through a successful load / load_owned / reload_untyped (parked: out of memory at 32 GB); sources that fail configure_hot_reloading at run time; filesystem source",
     "assumptions": COMMON_ASSUME,
 }
@@ -123,7 +123,7 @@ kanirun.META["C02"] = {
     "assumptions": COMMON_ASSUME,
 }
 kanirun.META["C09"] = {
-    "bounds": "a failing Compound::load on a cache with a reloader: error returned, nothing cached, nothing registered with the reloader; recording cell restored (C14 kernel); the reloader still answers after processing (thorough)",
+    "bounds": "a failing Compound::load on a cache with a reloader: error returned, nothing cached, nothing registered with the reloader; recording cell restored (C14 kernel); the reloader still answers after processing (thorough); E2 (MIR -> SMT): control flow of AnyCache::reload_untyped with every callee outcome symbolic (entry found or not, hot-reloaded or not, reloader present or not, load Ok or Err)",
     "outside": "panics (Kani has no unwinding: CellGuard on unwind, poison-ignoring locks); io::Error kinds through load_from_source (thorough only)",
     "assumptions": COMMON_ASSUME,
 }
